@@ -378,7 +378,17 @@ func (c14) Exec(seed int64, i int, tier string) Record {
 	}
 	log := &c12Log{}
 	cfg := c12RecConfig(false, log)
-	f, out := SafeParse(text, &cfg)
+	var f Parsed
+	var out Outcome
+	if r.Chance(25) {
+		// class config:several — further Config arguments after the first (b11_helpers.go): only the first counts
+		later, desc := b11LaterConfigs(r, true)
+		f, out = SafeParseMulti(text, append([]jsonpath.Config{cfg}, later...)...)
+		rec.Tags = append(rec.Tags, fmt.Sprintf("config:several-%d", 1+len(later)))
+		rec.Info["later_configs"] = desc
+	} else {
+		f, out = SafeParse(text, &cfg)
+	}
 	if f == nil {
 		rec.Viol = "generated path was rejected by Parse: " + out.Detail()
 		rec.Class = "parse-reject"
